@@ -102,7 +102,7 @@ def lab_compare(prog, mac, res):
 
 # ----------------------------------------------------------------------------- end to end
 
-POOL = ["Ca", "Cb", "Cc", "Cd", "Cab", "Caba"]
+POOL = ["Ca", "Cb", "Cc", "Cd", "Cab", "Caba", "Ca_", "_Cb", "C__c"]
 PRELUDE = """#![forbid(unsafe_code)]
 #![allow(warnings)]
 use gecs::prelude::*;
@@ -248,8 +248,8 @@ def match_enum(tier, seed):
     # quick: all pairs of archetypes x lists of two parameters; three archetypes x single parameters;
     # component names that are prefixes of each other
     # "mixed": even-numbered archetypes declare their columns in reverse pool order
-    confs = ([("Pool3", 2, 2, "mixed"), ("Pool3", 3, 1, "canon"), ("PoolP", 2, 1, "canon")] if tier == "quick"
-             else [("Pool3", 3, 2, "mixed"), ("Pool3", 2, 2, "canon"), ("Pool4", 2, 2, "mixed"), ("PoolP", 2, 2, "canon")])
+    confs = ([("Pool3", 2, 2, "mixed"), ("Pool3", 3, 1, "canon"), ("PoolP", 2, 1, "canon"), ("PoolS", 2, 1, "mixed")] if tier == "quick"
+             else [("Pool3", 3, 2, "mixed"), ("Pool3", 2, 2, "canon"), ("Pool4", 2, 2, "mixed"), ("PoolP", 2, 2, "canon"), ("PoolS", 2, 2, "mixed")])
     progs, states, trans = [], 0, 0
     for pool, ma, mp, order in confs:
         items, st = tlc_lines("MatchMC", "SPECIFICATION Spec\nCONSTANTS\n  PoolSeq <- %s\n  MaxArch = %d\n  MaxParams = %d\n  ColOrder = \"%s\"\nINVARIANTS Sound Complete Export\nCHECK_DEADLOCK FALSE\n" % (pool, ma, mp, order), "PROG")
@@ -295,6 +295,9 @@ def match_enum(tier, seed):
     n_decl = 8 if tier == "quick" else 40
     n_ok = 8 if tier == "quick" else 24
     chosen = decl_keys[:n_decl]
+    # every spelling class of component identifiers is compiled and run, not only enumerated
+    odd = [dk for dk in decl_keys if '_' in dk and len(json.loads(dk)) >= 2 and dk not in chosen]
+    chosen += odd[:2 if tier == "quick" else 8]
     jobs = []
     err_jobs = []
     for dk in chosen:
@@ -1220,4 +1223,90 @@ def wdecl(tier, seed):
            "samples": [{"a1": it["a1"], "a2": it["a2"], "asg": it["asg"], "order": it["order"], "expected": it["archs"]} for it in items[101::9001][:2]],
            "wall_s": round(time.time() - t0, 1), "cached": False}
     cache_put("wdecl", key, res)
+    return res
+
+
+# ============================================================================ maximum-size declaration (C15 / C17 / C14)
+
+def maxworld_src(n, events):
+    """A world with n one-component archetypes (the declaration-size boundary: ids 0..255) and a
+    program that exercises what depends on the NUMBER of archetypes: id constants, dynamic dispatch
+    to the first / middle / last archetype, Select conversions, world-level queries and event iterators."""
+    L = ["#![forbid(unsafe_code)]", "#![allow(warnings)]", "use gecs::prelude::*;", "#[derive(Clone)] pub struct Ca(pub u32);", "ecs_world! {"]
+    for i in range(n):
+        L.append("    ecs_archetype!(M%d, Ca);" % i)
+    L.append("}")
+    L.append("fn check(out: &mut Vec<String>) {")
+    L.append("    let mut world = EcsWorld::new();")
+    L.append("    if <EcsWorld as World>::NUM_ARCHETYPES != %d { out.push(format!(\"C15 NUM_ARCHETYPES {}\", <EcsWorld as World>::NUM_ARCHETYPES)); }" % n)
+    L.append("    let mut all: Vec<EntityAny> = Vec::new();")
+    for i in range(n):
+        L.append("    { if M%d::ARCHETYPE_ID as usize != %d { out.push(format!(\"C15 ARCHETYPE_ID of M%d is {}\", M%d::ARCHETYPE_ID)); } let e = world.create::<M%d>((Ca(%d),)); all.push(e.into_any()); }" % (i, i, i, i, i, 1000 + i))
+    L.append("    let set: std::collections::HashSet<(u32, u32)> = all.iter().map(|e| e.raw()).collect();")
+    L.append("    if set.len() != all.len() { out.push(\"C08 handles of different archetypes collide\".to_string()); }")
+    L.append("    for (i, e) in all.iter().enumerate() {")
+    L.append("        if e.archetype_id() as usize != i { out.push(format!(\"C14 archetype_id() of entity {} is {}\", i, e.archetype_id())); }")
+    L.append("        if !world.contains(*e) { out.push(format!(\"C01 live entity {} not contained\", i)); }")
+    L.append("        let v = ecs_find!(world, *e, |c: &Ca| -> u32 { c.0 });")
+    L.append("        if v != Some(1000 + i as u32) { out.push(format!(\"C02 ecs_find on entity {} gives {:?}\", i, v)); }")
+    L.append("        match SelectEntity::try_from(*e) { Ok(s) => { let back: EntityAny = match s { %s }; if back != *e { out.push(format!(\"C14 Select round trip {}\", i)); } } Err(_) => out.push(format!(\"C14 Select rejects archetype {}\", i)) }" %
+             " ".join("SelectEntity::M%d(x) => x.into_any()," % i for i in range(n)))
+    L.append("    }")
+    L.append("    let mut seen = 0usize; ecs_iter!(world, |e: &EntityAny, c: &Ca| { if c.0 as usize != 1000 + e.archetype_id() as usize { seen += 100000; } seen += 1; });")
+    L.append("    if seen != %d { out.push(format!(\"C06 ecs_iter visited {}\", seen)); }" % n)
+    if events:
+        L.append("    { let mut it = world.iter_created(); let mut k = 0usize; loop { let h = it.size_hint(); if h != (%d - k, Some(%d - k)) { out.push(format!(\"C17 size_hint {:?} after {}\", h, k)); break; } if it.next().is_none() { break; } k += 1; } if k != %d { out.push(format!(\"C17 iter_created yields {}\", k)); } }" % (n, n, n))
+    L.append("    for (i, e) in all.iter().enumerate() { if i % 2 == 1 { if world.destroy(*e).is_none() { out.push(format!(\"C01 destroy of live entity {} failed\", i)); } if world.contains(*e) { out.push(format!(\"C01 destroyed entity {} still contained\", i)); } } }")
+    if events:
+        L.append("    { let d: Vec<EntityAny> = world.iter_destroyed().copied().collect(); if d.len() != %d || d.iter().any(|e| e.archetype_id() %% 2 != 1) { out.push(format!(\"C17 iter_destroyed yields {}\", d.len())); } }" % (n // 2))
+        L.append("    if world.iter_created().count() != %d { out.push(\"C17 iter_created count\".to_string()); }" % n)
+        L.append("    world.clear_events(); if world.iter_created().count() != 0 || world.iter_destroyed().count() != 0 { out.push(\"C17 clear_events\".to_string()); }")
+    L.append("    let c = world.clone(); let mut n2 = 0usize; ecs_iter_borrow!(c, |_e: &EntityAny| { n2 += 1; }); if n2 != %d { out.push(format!(\"C13 clone holds {}\", n2)); }" % (n - n // 2))
+    L.append("    let mut gone = 0usize; ecs_iter_destroy!(world, |_e: &EntityAny| { gone += 1; EcsStepDestroy::ContinueDestroy }); if gone != %d { out.push(format!(\"C07 iter_destroy removed {}\", gone)); }" % (n - n // 2))
+    L.append("    for e in all.iter() { if world.contains(*e) { out.push(\"C07 entity survives a destroying pass\".to_string()); break; } }")
+    L.append("}")
+    L.append("fn main() { let mut out: Vec<String> = Vec::new(); let r = std::panic::catch_unwind(std::panic::AssertUnwindSafe(|| check(&mut out)));")
+    L.append("    if r.is_err() { out.push(\"C10 panic in a %d-archetype world\".to_string()); } if out.is_empty() { println!(\"ALLOK\"); } else { for l in out.iter().take(12) { println!(\"FAIL {}\", l); } } }" % n)
+    return "\n".join(L)
+
+def maxworld(tier, seed, features=()):
+    feats = tuple(sorted(features))
+    key = key_of("maxworld", repo_hash(), verif_hash(), tier, feats)
+    c = cache_get("maxworld", key)
+    if c:
+        c["cached"] = True
+        return c
+    t0 = time.time()
+    rlib, deps = build_gecs(feats, False)
+    events = "events" in feats
+    violations = []
+    jobs = [("full", 256, True), ("over", 257, False)] + ([("half", 129, True)] if tier == "thorough" else [])
+    def run(job):
+        name, n, must_compile = job
+        extra = ['feature="%s"' % f for f in feats]
+        r = compile_run(maxworld_src(n, events), rlib, deps, "maxw_%s_%s" % (name, key[:10]), run=must_compile, extra_cfg=extra)
+        out = []
+        ev = {"archetypes": n, "features": list(feats)}
+        if must_compile:
+            if r["rc"] != 0:
+                out.append({"tags": ["C15", "C17"] if events else ["C15"], "what": "a world with %d archetypes does not compile: %s" % (n, r["stderr"][-400:]), "at": 0, "event": ev, "origin": {"engine": "maxworld"}})
+            else:
+                so = r.get("stdout", "")
+                fails = [l[5:] for l in so.splitlines() if l.startswith("FAIL ")]
+                if fails or "ALLOK" not in so:
+                    tags = sorted({f.split()[0] for f in fails if f.split() and f.split()[0].startswith("C")}) or ["C15", "C17", "C10"]
+                    if "C10" in tags and events:
+                        tags = sorted(set(tags) | {"C17"})
+                    out.append({"tags": tags, "what": "%d-archetype world (%s): %s" % (n, "+".join(feats) or "default", "; ".join(fails)[:500] or so[-400:]), "at": 0, "event": ev, "origin": {"engine": "maxworld"}})
+        else:
+            if r["rc"] == 0:
+                out.append({"tags": ["C15"], "what": "a declaration of %d archetypes (ids past 255) compiles" % n, "at": 0, "event": ev, "origin": {"engine": "maxworld"}})
+        return out
+    with ThreadPoolExecutor(max_workers=3) as ex:
+        for res in ex.map(run, jobs):
+            violations += res
+    res = {"engine": "maxworld", "cfg": cfg_name(feats, False), "tier": tier, "seed": seed, "programs": len(jobs), "generator_runs": 0, "e2e_crates": len(jobs), "traces": len(jobs),
+           "archetypes": 256, "tlc_states": 0, "tlc_transitions": 0, "violations": violations, "n_violations": len(violations), "samples": [],
+           "wall_s": round(time.time() - t0, 1), "cached": False}
+    cache_put("maxworld", key, res)
     return res
